@@ -797,11 +797,35 @@ def transportConnectModelRow (sc : List String) : List String :=
         (if s.closed then [] else ["startRun", "clearGuard"]) ++
         [if s.phase == .ready then "return:conn" else "return:error"]
 
+/-- the deadline bookkeeping of the two connect functions is the subject of `connect_flows_run_under_the_time_limit` -/
+def noTimeLimit (eff : List String) : List String :=
+  eff.filter (fun e => !(e == "setDeadline" || e == "clearDeadline"))
+
 /-- the extracted exit structure of `(*Dialer).connect` and `(*connGroup).connect` is the model's: same calls,
 closed on exactly the same paths, a connection returned exactly when the model reaches `ready` -/
 theorem connect_flows_are_the_model :
-    Gen.MuxFacts.dialerConnectFlow.all (fun (sc, eff) => dialerConnectModelRow sc == eff) = true ∧
-    Gen.MuxFacts.transportConnectFlow.all (fun (sc, eff) => transportConnectModelRow sc == eff) = true := by
+    Gen.MuxFacts.dialerConnectFlow.all (fun (sc, eff) => dialerConnectModelRow sc == noTimeLimit eff) = true ∧
+    Gen.MuxFacts.transportConnectFlow.all (fun (sc, eff) => transportConnectModelRow sc == noTimeLimit eff) = true := by
+  decide
+
+/-- the set-up runs under the dial's time limit: walking a row of the two connect functions, every exchange with the
+broker (`apiVersions`, `auth` = the whole SASL exchange) happens while a deadline is set on the connection, and the
+deadline is cleared before the connection is handed out.  (A Dialer's ApiVersions exchange is part of `auth`: it is the
+lazy negotiation inside `saslHandshake`.)  The model's `Env.ioerr` — "the pending exchange fails: timeout, …" — is an
+event the code can actually produce only under this discipline: with no deadline on the connection a broker that falls
+silent produces no event at all (finding C18-D33). -/
+def underTimeLimit (effs : List String) : Bool :=
+  (effs.foldl (fun (st : Bool × Bool) (e : String) =>
+      -- st = (deadline set, ok so far)
+      if e == "setDeadline" then (true, st.2)
+      else if e == "clearDeadline" then (false, st.2)
+      else if e == "apiVersions" || e == "auth" then (st.1, st.2 && st.1)
+      else if e == "return:conn" then (st.1, st.2 && !st.1)
+      else st) (false, true)).2
+
+theorem connect_flows_run_under_the_time_limit :
+    Gen.MuxFacts.dialerConnectFlow.all (fun (_, eff) => underTimeLimit eff) = true ∧
+    Gen.MuxFacts.transportConnectFlow.all (fun (_, eff) => underTimeLimit eff) = true := by
   decide
 
 /-! ## raw versus framed: the two places that decide it, re-extracted -/
